@@ -438,6 +438,15 @@ def run(ctx):
             same = vcls == cls or cls in fb.derived_from(vcls) or vcls in fb.bases_of(cls)
             res.check(same, "C04-R3", "create:case-%s:accepted" % case, r.get("loc"), "validated by %s, constructed as %s" % (vcls.split("::")[-1], cls.split("::")[-1]),
                       "payload type case %s is validated by %s::isValidPayload but constructed as %s" % (case, vcls, cls))
+        else:
+            # no validator was asked on this row: only a type that has none may leave this way (the switch's default), or a payload marked invalid
+            a0 = v[0]["args"][0] if v[0].get("args") else None
+            inv = a0 is not None and any(const_value(x) == 0 and "invalid" in canon(x) for x in walk(a0))
+            res.check(case == "default" or inv, "C04-R3", "create:unvalidated@%s" % (r.get("loc") or "").split(":", 1)[-1], r.get("loc"),
+                      "returned without a validator only for types that have none (default case) or marked invalid",
+                      "Packet::create returns a payload (`%s`) on a path on which no validator was asked and which is not the switch's default: a message "
+                      "of a known payload type is delivered as a valid payload of that type whatever its bytes are (an empty CAN message reads as valid)" %
+                      canon(v[0])[:80])
     # error bits
     interp = accessors.HeaderInterp(fb, None)
     for cls, eb in spec["error_bits"].items():
